@@ -5,6 +5,37 @@ import HexProofs.Numeric.SeriesATR
 import HexProofs.Numeric.Demo
 /-!
 # Stochastic: the whole series (closes the STOCH item of `C06_FULL`)
+
+`Gen.rowMajor (stochTree …).S raw` is the row-major run of the STOCH tree (own reading under
+`name`, `Managed` holder `name_data` = dict `{stoch, k}`, SMA helpers `name_k` over
+`name_data.stoch` and `name_d` over `name_data.k`); by `TreeSpec.engine` / `batch_iff` /
+`live_refines` it is what `calculate()`, the batch run and every append schedule return.
+
+What the model (`Calc.stoch`, `children`, `Calc.sma`) actually does, and hence what is proved
+(`period = p ≥ 2`, `smoothing_k = sk ≥ 1`, `slow_period = sl ≥ 1`, input a candle field):
+
+* before index `p − 1` (`reading_period(p, input)` false) NOTHING is written but the own reading,
+  which is the dict `{stoch: None, k: None, d: None}` – never a bare `None`;
+* from `p − 1` on the raw value `stoch_j = 100·(x_j − LL)/(HH − LL)` (`0.0` when `HH = LL`, `LL`/`HH`
+  over the lows/highs of candles `j−p+1 … j`) goes UNROUNDED into `name_data` (`Managed.set_reading`
+  does not round): `stExact`, exact, no budget;
+* `name_k` = SMA(`sk`) over `name_data.stoch`, rounded by the engine to `defaultRound = 4`: `None`
+  before `t_K = p + sk − 2` (`stochTK`), the rounded mean of the first `sk` raw values at `t_K`, then the
+  RUNNING form `round₄(prev − (stoch_{j−sk} − stoch_j)/sk)` on the stored predecessor (`stKStored`,
+  `smaStored`): within `(j − t_K + 1)·ε₄` of the textbook `%K` (`stKStored_err`); this rounded value
+  is what goes into `name_data.k`;
+* `name_d` = SMA(`sl`) over `name_data.k` (the STORED `%K`), rounded to 4: `None` before
+  `t_D = p + sk + sl − 3` (`stochTD`), then running; within `(j − t_D + 1)·ε₄ + (j − t_K + 1)·ε₄` of the
+  textbook `%D` = mean of the last `sl` textbook `%K` (`stDStored_err`);
+* the own reading is `{stoch, k, d}` rounded to the node's `rounding` `n`: `+ ε_n` on each
+  (`StochOK`); with `n = 4` the second rounding of `k`, `d` is the identity (`stRow_default_round`);
+* ranges (`stoch_ranges`): on candles with `low ≤ input ≤ high` the textbook values are in `[0,100]`,
+  the own `stoch` is in `[0,100]` exactly, the others within their budget of `[0,100]`.
+
+Theorems: `stoch_series` (the run equals `stochDeco`, an explicit function of the raw candles; by
+induction along `Gen.rowMajor` – `gen_series_induct` – from `stoch_step`), `stochDeco_ok`
+(candle by candle: `StochOK`), `stoch_series_engine`, `stoch_series_batch`, `stoch_batch_readings`,
+`stoch_series_live`.
 -/
 set_option linter.unusedSectionVars false
 set_option linter.unusedSimpArgs false
@@ -615,5 +646,580 @@ theorem stoch_step (p sk sl : Nat) (hp : 2 ≤ p) (hsk : 1 ≤ sk) (hsl : 1 ≤ 
     unfold stRow
     rw [if_neg h1, ← hS, hKS]
 
+/-! ### the whole series -/
+
+/-- a finished STOCH candle: raw candle `c` with the row `z` stored -/
+def stochOut (nm : String) (n : Nat) (c : Candle K) (z : Option (Val K × Val K × Val K) × Val K) : Candle K :=
+  stochApp nm n z c
+
+/-- the row step of `stochTree`: compute the row from the finished prefix and the raw candle, store it -/
+theorem stoch_rowStep (nm : String) (n : Nat) (p slow smoothK : Int) (input : String) (hp : 2 ≤ p)
+    (hs : 1 ≤ slow) (hk : 1 ≤ smoothK) (hn : StochNames nm) (hin : NoDot input ∧ input ∈ Candle.attrNames)
+    (done : List (Candle K)) (c : Candle K) :
+    Gen.rowStep (stochTree (F := K) nm n p slow smoothK input hp hs hk hn hin).S done c = (do
+      let z ← stochVal nm p slow smoothK input done c
+      pure (done ++ [stochOut nm n c z])) :=
+  TComp.rowStep_spec (stochCompP nm n p slow smoothK input) _ done c
+
+/-- the candles of a whole STOCH run, as a function of the raw candles -/
+def stochDeco (nm : String) (n p sk sl : Nat) (fld : Candle K → Num K) (raw : List (Candle K)) : List (Candle K) :=
+  (List.range raw.length).map fun j =>
+    stochApp nm n (stRow p sk sl (fieldAt (·.l) raw) (fieldAt (·.h) raw) (fieldAt fld raw) j) (raw.getD j default)
+
+theorem stochDeco_length (nm : String) (n p sk sl : Nat) (fld : Candle K → Num K) (raw : List (Candle K)) :
+    (stochDeco nm n p sk sl fld raw).length = raw.length := by simp [stochDeco]
+
+theorem stochDeco_getD (nm : String) (n p sk sl : Nat) (fld : Candle K → Num K) (raw : List (Candle K))
+    (j : Nat) (hj : j < raw.length) :
+    (stochDeco nm n p sk sl fld raw).getD j default = stochApp nm n
+      (stRow p sk sl (fieldAt (·.l) raw) (fieldAt (·.h) raw) (fieldAt fld raw) j) (raw.getD j default) := by
+  rw [List.getD_eq_getElem?_getD]
+  simp [stochDeco, hj]
+
+/-- **C06 for the whole STOCH series** (row-major run of `stochTree`; `period ≥ 2`, `slow ≥ 1`,
+`smoothK ≥ 1`, input a candle field).  For EVERY raw list the run returns, and candle `j` of the
+result is raw candle `j` carrying exactly the row `stRow … j` (a function of the raw candles). -/
+theorem stoch_series (p sk sl : Nat) (hp : 2 ≤ p) (hsk : 1 ≤ sk) (hsl : 1 ≤ sl) (nm input : String)
+    (fld : Candle K → Num K) (n : Nat) (hn : StochNames nm) (hin : NoDot input ∧ input ∈ Candle.attrNames)
+    (hattr : ∀ c : Candle K, c.attr input = some (.num (fld c)))
+    (raw : List (Candle K)) (hraw : ∀ c ∈ raw, Plain c) :
+    Gen.rowMajor (stochTree (F := K) nm n (p : Int) (sl : Int) (sk : Int) input (by omega) (by omega) (by omega)
+      hn hin).S raw = .ok (stochDeco nm n p sk sl fld raw) := by
+  obtain ⟨rows, hl, hrun, hall⟩ := gen_series_induct
+    (stochTree (F := K) nm n (p : Int) (sl : Int) (sk : Int) input (by omega) (by omega) (by omega) hn hin).S
+    (stochOut nm n) (none, stochNone) raw
+    (fun j r => r = stRow p sk sl (fieldAt (·.l) raw) (fieldAt (·.h) raw) (fieldAt fld raw) j) (by
+      intro m hm rows hrows hQ
+      have htl : (raw.take m).length = m := by simp; omega
+      have hdl : (decoWith (stochOut nm n) (raw.take m) rows).length = m := by
+        rw [decoWith_length _ _ _ (by rw [htl, hrows]), htl]
+      rw [stoch_rowStep]
+      have hstep := stoch_step p sk sl hp hsk hsl nm input fld n hn hin hattr raw hraw m hm _ hdl (by
+        intro j hj
+        rw [decoWith_getElem? _ _ _ (none, stochNone) j (by rw [htl, hrows]) (by rw [htl]; exact hj), hQ j hj]
+        have : (raw.take m).getD j default = raw.getD j default := by
+          rw [List.getD_eq_getElem?_getD, List.getD_eq_getElem?_getD, List.getElem?_take_of_lt hj]
+        rw [this]; rfl)
+      rw [hstep]
+      exact ⟨_, rfl, rfl⟩)
+  rw [hrun]
+  congr 1
+  apply List.ext_getElem?
+  intro j
+  by_cases hj : j < raw.length
+  · rw [decoWith_getElem? _ _ _ (none, stochNone) j hl hj, hall j hj]
+    simp [stochDeco, hj, stochOut]
+  · rw [List.getElem?_eq_none (by rw [decoWith_length _ _ _ hl]; omega),
+      List.getElem?_eq_none (by rw [stochDeco_length]; omega)]
+
+/-! ### the rounding budgets -/
+
+section budgets
+variable (p sk sl : Nat) (lo hi x : Nat → K)
+
+theorem cast_le_cast_mul (a b : Nat) (h : a ≤ b) (e : K) (he : 0 ≤ e) : (a : K) * e ≤ (b : K) * e :=
+  mul_le_mul_of_nonneg_right (by exact_mod_cast h) he
+
+/-- the stored `%K` is within `(j − t_K + 1)·ε₄` of the textbook `%K` -/
+theorem stKStored_err (hp : 1 ≤ p) (hsk : 1 ≤ sk) (j : Nat) (hj : stochTK p sk ≤ j) :
+    |stKStored p sk lo hi x j - stKExact p sk lo hi x j|
+      ≤ ((j + 1 - stochTK p sk : Nat) : K) * eps K defaultRound :=
+  smaStored_err defaultRound sk (stochTK p sk) _ hsk (by unfold stochTK; omega) j hj
+
+/-- the stored `%D` is within `(j − t_D + 1)·ε₄` of the mean of the STORED `%K` values and hence
+within `(j − t_D + 1)·ε₄ + (j − t_K + 1)·ε₄` of the textbook `%D` -/
+theorem stDStored_err (hp : 2 ≤ p) (hsk : 1 ≤ sk) (hsl : 1 ≤ sl) (j : Nat) (hj : stochTD p sk sl ≤ j) :
+    |stDStored p sk sl lo hi x j - stDExact p sk sl lo hi x j|
+      ≤ ((j + 1 - stochTD p sk sl : Nat) : K) * eps K defaultRound
+        + ((j + 1 - stochTK p sk : Nat) : K) * eps K defaultRound := by
+  have h1 := smaStored_err defaultRound sl (stochTD p sk sl) (stKStored p sk lo hi x) hsl
+    (by unfold stochTD; omega) j hj
+  have h2 : |winMean (stKStored p sk lo hi x) sl j - stDExact p sk sl lo hi x j|
+      ≤ ((j + 1 - stochTK p sk : Nat) : K) * eps K defaultRound := by
+    unfold stDExact winMean
+    apply mean_perturb sl hsl
+    intro k hk
+    have hidx : stochTK p sk ≤ j + 1 - sl + k := by unfold stochTK stochTD at *; omega
+    refine le_trans (stKStored_err p sk lo hi x (by omega) hsk _ hidx) ?_
+    exact cast_le_cast_mul _ _ (by unfold stochTK stochTD at *; omega) _ (eps_pos K _).le
+  calc |stDStored p sk sl lo hi x j - stDExact p sk sl lo hi x j|
+      = |(stDStored p sk sl lo hi x j - winMean (stKStored p sk lo hi x) sl j)
+          + (winMean (stKStored p sk lo hi x) sl j - stDExact p sk sl lo hi x j)| := by ring_nf
+    _ ≤ _ := abs_add_le _ _
+    _ ≤ _ := add_le_add h1 h2
+
+/-! ### ranges of the textbook values -/
+
+theorem stExact_range (hp : 1 ≤ p) (j : Nat) (hj : p ≤ j + 1) (hw : lo j ≤ x j ∧ x j ≤ hi j) :
+    0 ≤ stExact p lo hi x j ∧ stExact p lo hi x j ≤ 100 := by
+  unfold stExact
+  apply stochOf_range
+  · have := rmin_le (p - 1) (fun k => lo (j + 1 - p + k)) (p - 1) (le_refl _)
+    have e : j + 1 - p + (p - 1) = j := by omega
+    simp only [e] at this
+    exact le_trans this hw.1
+  · have := le_rmax (p - 1) (fun k => hi (j + 1 - p + k)) (p - 1) (le_refl _)
+    have e : j + 1 - p + (p - 1) = j := by omega
+    simp only [e] at this
+    exact le_trans hw.2 this
+
+theorem stKExact_range (hp : 1 ≤ p) (hsk : 1 ≤ sk) (j : Nat) (hj : stochTK p sk ≤ j)
+    (hw : ∀ i, i ≤ j → lo i ≤ x i ∧ x i ≤ hi i) :
+    0 ≤ stKExact p sk lo hi x j ∧ stKExact p sk lo hi x j ≤ 100 := by
+  unfold stKExact winMean
+  apply mean_between sk _ 0 100 hsk
+  intro k hk
+  unfold stochTK at hj
+  exact stExact_range p lo hi x hp _ (by omega) (hw _ (by omega))
+
+theorem stDExact_range (hp : 1 ≤ p) (hsk : 1 ≤ sk) (hsl : 1 ≤ sl) (j : Nat) (hj : stochTD p sk sl ≤ j)
+    (hw : ∀ i, i ≤ j → lo i ≤ x i ∧ x i ≤ hi i) :
+    0 ≤ stDExact p sk sl lo hi x j ∧ stDExact p sk sl lo hi x j ≤ 100 := by
+  unfold stDExact winMean
+  apply mean_between sl _ 0 100 hsl
+  intro k hk
+  unfold stochTD at hj
+  exact stKExact_range p sk lo hi x hp hsk _ (by unfold stochTK; omega) (fun i hi' => hw i (by omega))
+
+end budgets
+
+/-! ### the statement, reading by reading -/
+
+/-- a stored value against a textbook series: `None` where the series has no value, otherwise a
+float within `b` of it -/
+def Within (o : Option K) (b : K) (v : Val K) : Prop :=
+  match o with
+  | none => v = .none
+  | some e => ∃ y, v = .flt y ∧ |y - e| ≤ b
+
+/-- rounding to `n` decimals adds at most `ε_n` -/
+theorem Within.round (n : Nat) (o : Option K) (b : K) (v : Val K) (h : Within o b v) :
+    Within o (eps K n + b) (v.roundBy n) := by
+  cases o with
+  | none => have h' : v = .none := h
+            subst h'; exact (rfl : (Val.none : Val K).roundBy n = .none)
+  | some e =>
+    obtain ⟨y, rfl, hb⟩ := h
+    refine ⟨PyF.round n y, rfl, ?_⟩
+    calc |PyF.round n y - e| = |(PyF.round n y - y) + (y - e)| := by ring_nf
+      _ ≤ _ := abs_add_le _ _
+      _ ≤ _ := add_le_add (LawfulPyF.round_err n y) hb
+
+/-- a value within `b` of a textbook value in `[0, 100]` lies in `[−b, 100 + b]` -/
+theorem Within.range (e b : K) (v : Val K) (h : Within (some e) b v) (he : 0 ≤ e ∧ e ≤ 100) :
+    ∃ y, v = .flt y ∧ -b ≤ y ∧ y ≤ 100 + b := by
+  obtain ⟨y, hy, hb⟩ := h
+  obtain ⟨h1, h2⟩ := abs_le.1 hb
+  exact ⟨y, hy, by linarith, by linarith⟩
+
+/-- budget of the stored `%K` at index `j`: one `ε₄` per stored step since its first reading -/
+def stochBK (K : Type) [Field K] (p sk j : Nat) : K := ((j + 1 - stochTK p sk : Nat) : K) * eps K defaultRound
+/-- budget of the stored `%D` at index `j`: its own stored steps plus the budget of the `%K`
+values it averages -/
+def stochBD (K : Type) [Field K] (p sk sl j : Nat) : K :=
+  ((j + 1 - stochTD p sk sl : Nat) : K) * eps K defaultRound + stochBK K p sk j
+
+/-- **what the whole-series theorem says of candle `j`** (`own` = reading under `name`, `data` =
+entry under `name_data`, `k` / `d` = readings of the helpers `name_k` / `name_d`):
+* `data` is absent before index `p − 1`; from there on it is the dict `{stoch, k}` whose `stoch` is
+  EXACTLY `100·(x_j − LL)/(HH − LL)` (`Managed.set_reading` does not round) and whose `k` is the
+  reading of `name_k`;
+* `name_k` is `None` before `t_K = p + smoothK − 2`, then within `(j − t_K + 1)·ε₄` of the mean of the
+  last `smoothK` raw values; `name_d` is `None` before `t_D = t_K + slow − 1`, then within
+  `(j − t_D + 1)·ε₄ + (j − t_K + 1)·ε₄` of the mean of the last `slow` textbook `%K` values;
+* `own` is ALWAYS a dict `{stoch, k, d}` (three `None`s during warm-up – never a bare `None`); its
+  fields are the roundings to `n` decimals of the raw value and of the two helper readings. -/
+structure StochOK (n p sk sl : Nat) (lo hi x : Nat → K) (j : Nat) (own data k d : Val K) : Prop where
+  data_none : j + 1 < p → data = .none
+  data_some : p ≤ j + 1 → ∃ ks, data = sdict [("stoch", sc (.flt (stExact p lo hi x j))), ("k", ks)] ∧ k = .s ks
+  k_ok : Within (stochKSeries p sk lo hi x j) (stochBK K p sk j) k
+  d_ok : Within (stochDSeries p sk sl lo hi x j) (stochBD K p sk sl j) d
+  own_dict : ∃ a b e, own = .dict [("stoch", a), ("k", b), ("d", e)]
+  own_stoch : Within (stochSeries p lo hi x j) (eps K n) (own.nested "stoch")
+  own_stoch_round : p ≤ j + 1 → own.nested "stoch" = .flt (PyF.round n (stExact p lo hi x j))
+  own_k : own.nested "k" = k.roundBy n
+  own_d : own.nested "d" = d.roundBy n
+  own_k_ok : Within (stochKSeries p sk lo hi x j) (eps K n + stochBK K p sk j) (own.nested "k")
+  own_d_ok : Within (stochDSeries p sk sl lo hi x j) (eps K n + stochBD K p sk sl j) (own.nested "d")
+
+/-- the parts of a row -/
+def rowData (z : Option (Val K × Val K × Val K) × Val K) : Val K :=
+  match z.1 with | none => .none | some (a, _, _) => a
+def rowK (z : Option (Val K × Val K × Val K) × Val K) : Val K :=
+  match z.1 with | none => .none | some (_, b, _) => b
+def rowD (z : Option (Val K × Val K × Val K) × Val K) : Val K :=
+  match z.1 with | none => .none | some (_, _, e) => e
+
+theorem stKSc_within (p sk : Nat) (lo hi x : Nat → K) (hp : 1 ≤ p) (hsk : 1 ≤ sk) (j : Nat) :
+    Within (stochKSeries p sk lo hi x j) (stochBK K p sk j) (.s (stKSc p sk lo hi x j)) := by
+  unfold stochKSeries stKSc
+  by_cases h : j < stochTK p sk
+  · rw [if_pos h, if_pos h]; exact (rfl : (Val.none : Val K) = .none)
+  · rw [if_neg h, if_neg h]
+    exact ⟨_, rfl, stKStored_err p sk lo hi x hp hsk j (by omega)⟩
+
+theorem stDSc_within (p sk sl : Nat) (lo hi x : Nat → K) (hp : 2 ≤ p) (hsk : 1 ≤ sk) (hsl : 1 ≤ sl) (j : Nat) :
+    Within (stochDSeries p sk sl lo hi x j) (stochBD K p sk sl j) (.s (stDSc p sk sl lo hi x j)) := by
+  unfold stochDSeries stDSc
+  by_cases h : j < stochTD p sk sl
+  · rw [if_pos h, if_pos h]; exact (rfl : (Val.none : Val K) = .none)
+  · rw [if_neg h, if_neg h]
+    exact ⟨_, rfl, stDStored_err p sk sl lo hi x hp hsk hsl j (by omega)⟩
+
+/-- every row satisfies the statement -/
+theorem stRow_ok (n p sk sl : Nat) (lo hi x : Nat → K) (hp : 2 ≤ p) (hsk : 1 ≤ sk) (hsl : 1 ≤ sl) (j : Nat) :
+    StochOK n p sk sl lo hi x j ((stRow p sk sl lo hi x j).2.roundBy n) (rowData (stRow p sk sl lo hi x j))
+      (rowK (stRow p sk sl lo hi x j)) (rowD (stRow p sk sl lo hi x j)) := by
+  have hK := stKSc_within p sk lo hi x (by omega) hsk j
+  have hD := stDSc_within p sk sl lo hi x hp hsk hsl j
+  by_cases h : j + 1 < p
+  · have e : stRow p sk sl lo hi x j = (none, stochNone) := by unfold stRow; rw [if_pos h]
+    have hk0 : stochKSeries p sk lo hi x j = none := by
+      unfold stochKSeries; rw [if_pos (by unfold stochTK; omega)]
+    have hd0 : stochDSeries p sk sl lo hi x j = none := by
+      unfold stochDSeries; rw [if_pos (by unfold stochTD; omega)]
+    have hs0 : stochSeries p lo hi x j = none := by unfold stochSeries; rw [if_pos h]
+    rw [e]
+    exact
+      { data_none := fun _ => rfl
+        data_some := fun h' => by omega
+        k_ok := by rw [hk0]; show (_ : Val K) = _; rfl
+        d_ok := by rw [hd0]; show (_ : Val K) = _; rfl
+        own_dict := ⟨_, _, _, rfl⟩
+        own_stoch := by rw [hs0]; show (_ : Val K) = _; rfl
+        own_stoch_round := fun h' => by omega
+        own_k := rfl
+        own_d := rfl
+        own_k_ok := by rw [hk0]; show (_ : Val K) = _; rfl
+        own_d_ok := by rw [hd0]; show (_ : Val K) = _; rfl }
+  · have e : stRow p sk sl lo hi x j =
+        (some (sdict [("stoch", sc (.flt (stExact p lo hi x j))), ("k", stKSc p sk lo hi x j)],
+            .s (stKSc p sk lo hi x j), .s (stDSc p sk sl lo hi x j)),
+         sdict [("stoch", sc (.flt (stExact p lo hi x j))), ("k", stKSc p sk lo hi x j),
+            ("d", stDSc p sk sl lo hi x j)]) := by unfold stRow; rw [if_neg h]
+    have hs1 : stochSeries p lo hi x j = some (stExact p lo hi x j) := by unfold stochSeries; rw [if_neg h]
+    have eS : ((sdict [("stoch", sc (.flt (stExact p lo hi x j))), ("k", stKSc p sk lo hi x j),
+            ("d", stDSc p sk sl lo hi x j)] : Val K).roundBy n).nested "stoch"
+        = .flt (PyF.round n (stExact p lo hi x j)) := by
+      simp [sdict, sc, Val.roundBy, Val.nested, dlookup, Scalar.roundBy, Num.roundBy]
+    have eK : ((sdict [("stoch", sc (.flt (stExact p lo hi x j))), ("k", stKSc p sk lo hi x j),
+            ("d", stDSc p sk sl lo hi x j)] : Val K).roundBy n).nested "k"
+        = (Val.s (stKSc p sk lo hi x j)).roundBy n := by
+      simp [sdict, sc, Val.roundBy, Val.nested, dlookup]
+    have eD : ((sdict [("stoch", sc (.flt (stExact p lo hi x j))), ("k", stKSc p sk lo hi x j),
+            ("d", stDSc p sk sl lo hi x j)] : Val K).roundBy n).nested "d"
+        = (Val.s (stDSc p sk sl lo hi x j)).roundBy n := by
+      simp [sdict, sc, Val.roundBy, Val.nested, dlookup]
+    rw [e]
+    refine ⟨fun h' => by omega, fun _ => ⟨_, rfl, rfl⟩, hK, hD, ⟨_, _, _, rfl⟩, ?_, fun _ => eS, eK, eD, ?_, ?_⟩
+    · show Within _ _ (Val.nested _ "stoch")
+      rw [eS, hs1]
+      exact ⟨_, rfl, LawfulPyF.round_err n _⟩
+    · show Within _ _ (Val.nested _ "k")
+      rw [eK]; exact Within.round n _ _ _ hK
+    · show Within _ _ (Val.nested _ "d")
+      rw [eD]; exact Within.round n _ _ _ hD
+
+/-- **STOCH, whole series, candle by candle**: candle `j` of the run satisfies `StochOK` -/
+theorem stochDeco_ok (p sk sl : Nat) (hp : 2 ≤ p) (hsk : 1 ≤ sk) (hsl : 1 ≤ sl) (nm : String)
+    (fld : Candle K → Num K) (n : Nat) (hn : StochNames nm) (raw : List (Candle K)) (hraw : ∀ c ∈ raw, Plain c)
+    (j : Nat) (hj : j < raw.length) :
+    StochOK n p sk sl (fieldAt (·.l) raw) (fieldAt (·.h) raw) (fieldAt fld raw) j
+      (readingByCandle ((stochDeco nm n p sk sl fld raw).getD j default) nm)
+      (readingByCandle ((stochDeco nm n p sk sl fld raw).getD j default) (nm ++ "_data"))
+      (readingByCandle ((stochDeco nm n p sk sl fld raw).getD j default) (nm ++ "_k"))
+      (readingByCandle ((stochDeco nm n p sk sl fld raw).getD j default) (nm ++ "_d")) := by
+  have hpl := getD_plain raw hraw j hj
+  rw [stochDeco_getD _ _ _ _ _ _ _ j hj, stochApp_own nm n hn, stochApp_data nm n hn _ _ hpl,
+    stochApp_k nm n hn _ _ hpl, stochApp_d nm n hn _ _ hpl]
+  exact stRow_ok n p sk sl _ _ _ hp hsk hsl j
+
+/-- the data fields read through their dotted names, as the SMA helpers read them -/
+theorem stochDeco_fields (p sk sl : Nat) (nm : String) (fld : Candle K → Num K) (n : Nat) (hn : StochNames nm)
+    (raw : List (Candle K)) (hraw : ∀ c ∈ raw, Plain c) (j : Nat) (hj : j < raw.length) :
+    readingByCandle ((stochDeco nm n p sk sl fld raw).getD j default) (nm ++ "_data.stoch")
+      = (if j + 1 < p then Val.none
+         else .flt (stExact p (fieldAt (·.l) raw) (fieldAt (·.h) raw) (fieldAt fld raw) j)) ∧
+    readingByCandle ((stochDeco nm n p sk sl fld raw).getD j default) (nm ++ "_data.k")
+      = readingByCandle ((stochDeco nm n p sk sl fld raw).getD j default) (nm ++ "_k") := by
+  have hpl := getD_plain raw hraw j hj
+  rw [stochDeco_getD _ _ _ _ _ _ _ j hj, stochApp_field nm n hn _ "stoch" hn.dotS _ _ hpl,
+    stochApp_field nm n hn _ "k" hn.dotK _ _ hpl, stochApp_k nm n hn _ _ hpl]
+  unfold stRow
+  by_cases h : j + 1 < p
+  · rw [if_pos h, if_pos h]; exact ⟨rfl, rfl⟩
+  · rw [if_neg h, if_neg h]
+    exact ⟨nested_stoch2 (F := K) _ _, nested_k2 _ _⟩
+
+/-- **ranges**: on candles with `low ≤ input ≤ high` the textbook values lie in `[0, 100]`; the own
+`stoch` field lies in `[0, 100]` exactly (monotone rounding fixes `0` and `100`), the helper
+readings and the own `k`, `d` fields lie in `[−b, 100 + b]` for their budget `b` -/
+theorem stoch_ranges (n p sk sl : Nat) (lo hi x : Nat → K) (hp : 2 ≤ p) (hsk : 1 ≤ sk) (hsl : 1 ≤ sl) (j : Nat)
+    (hw : ∀ i, i ≤ j → lo i ≤ x i ∧ x i ≤ hi i) (own data k d : Val K)
+    (h : StochOK n p sk sl lo hi x j own data k d) :
+    (p ≤ j + 1 → ∃ y, own.nested "stoch" = .flt y ∧ 0 ≤ y ∧ y ≤ 100) ∧
+    (stochTK p sk ≤ j →
+      (∃ y, k = .flt y ∧ -stochBK K p sk j ≤ y ∧ y ≤ 100 + stochBK K p sk j) ∧
+      (∃ y, own.nested "k" = .flt y ∧ -(eps K n + stochBK K p sk j) ≤ y ∧ y ≤ 100 + (eps K n + stochBK K p sk j))) ∧
+    (stochTD p sk sl ≤ j →
+      (∃ y, d = .flt y ∧ -stochBD K p sk sl j ≤ y ∧ y ≤ 100 + stochBD K p sk sl j) ∧
+      (∃ y, own.nested "d" = .flt y ∧ -(eps K n + stochBD K p sk sl j) ≤ y ∧
+        y ≤ 100 + (eps K n + stochBD K p sk sl j))) := by
+  refine ⟨fun hj => ?_, fun hj => ?_, fun hj => ?_⟩
+  · have hr := stExact_range p lo hi x (by omega) j hj (hw j (le_refl j))
+    refine ⟨_, h.own_stoch_round hj, ?_, ?_⟩
+    · rw [← round_zero (K := K) n]; exact LawfulPyF.round_mono n hr.1
+    · rw [← round_hundred (K := K) n]; exact LawfulPyF.round_mono n hr.2
+  · have hr := stKExact_range p sk lo hi x (by omega) hsk j hj hw
+    have e : stochKSeries p sk lo hi x j = some (stKExact p sk lo hi x j) := by
+      unfold stochKSeries; rw [if_neg (by omega)]
+    have h1 := h.k_ok
+    have h2 := h.own_k_ok
+    rw [e] at h1 h2
+    exact ⟨Within.range _ _ _ h1 hr, Within.range _ _ _ h2 hr⟩
+  · have hr := stDExact_range p sk sl lo hi x (by omega) hsk hsl j hj hw
+    have e : stochDSeries p sk sl lo hi x j = some (stDExact p sk sl lo hi x j) := by
+      unfold stochDSeries; rw [if_neg (by omega)]
+    have h1 := h.d_ok
+    have h2 := h.own_d_ok
+    rw [e] at h1 h2
+    exact ⟨Within.range _ _ _ h1 hr, Within.range _ _ _ h2 hr⟩
+
+/-! ### through the engine -/
+
+/-- **STOCH, whole series, through the engine**: `calculate()` on the raw candles returns exactly
+the candles of `stoch_series` -/
+theorem stoch_series_engine (p sk sl : Nat) (hp : 2 ≤ p) (hsk : 1 ≤ sk) (hsl : 1 ≤ sl) (nm input : String)
+    (fld : Candle K → Num K) (n : Nat) (hn : StochNames nm) (hin : NoDot input ∧ input ∈ Candle.attrNames)
+    (hattr : ∀ c : Candle K, c.attr input = some (.num (fld c)))
+    (raw : List (Candle K)) (hraw : ∀ c ∈ raw, Plain c) :
+    engineCalc (mkTop (.stoch (p : Int) (sl : Int) (sk : Int) input : Kind K) nm n) raw
+      = .ok (stochDeco nm n p sk sl fld raw) := by
+  have hrun := stoch_series p sk sl hp hsk hsl nm input fld n hn hin hattr raw hraw
+  have := ((stochTree (F := K) nm n (p : Int) (sl : Int) (sk : Int) input (by omega) (by omega) (by omega)
+    hn hin).engine [] raw [] (stochDeco nm n p sk sl fld raw) rfl (by simp) hraw).2 (by simpa using hrun)
+  simpa using this
+
+/-- **… and through the object**: building the indicator over the raw candles and calling
+`calculate()` once (the batch run, `C01.runBatch`) returns exactly the candles of `stoch_series` -/
+theorem stoch_series_batch (p sk sl : Nat) (hp : 2 ≤ p) (hsk : 1 ≤ sk) (hsl : 1 ≤ sl) (nm input : String)
+    (fld : Candle K → Num K) (n : Nat) (hn : StochNames nm) (hin : NoDot input ∧ input ∈ Candle.attrNames)
+    (hattr : ∀ c : Candle K, c.attr input = some (.num (fld c)))
+    (raw : List (Candle K)) (hraw : ∀ c ∈ raw, Plain c) :
+    candlesOf (runIndicator (mkTop (.stoch (p : Int) (sl : Int) (sk : Int) input : Kind K) nm n) {} raw [])
+      = .ok (stochDeco nm n p sk sl fld raw) :=
+  ((stochTree (F := K) nm n (p : Int) (sl : Int) (sk : Int) input (by omega) (by omega) (by omega)
+    hn hin).batch_iff (MgrSpec.base K) raw hraw _).2
+    (stoch_series p sk sl hp hsk hsl nm input fld n hn hin hattr raw hraw)
+
+/-- **whenever the batch run returns, its candles carry exactly those readings** (and it does
+return: `stoch_series_batch`) -/
+theorem stoch_batch_readings (p sk sl : Nat) (hp : 2 ≤ p) (hsk : 1 ≤ sk) (hsl : 1 ≤ sl) (nm input : String)
+    (fld : Candle K → Num K) (n : Nat) (hn : StochNames nm) (hin : NoDot input ∧ input ∈ Candle.attrNames)
+    (hattr : ∀ c : Candle K, c.attr input = some (.num (fld c)))
+    (raw : List (Candle K)) (hraw : ∀ c ∈ raw, Plain c) (out : List (Candle K))
+    (hout : candlesOf (runIndicator (mkTop (.stoch (p : Int) (sl : Int) (sk : Int) input : Kind K) nm n) {} raw [])
+      = .ok out) :
+    out.length = raw.length ∧
+    ∀ j, j < raw.length →
+      StochOK n p sk sl (fieldAt (·.l) raw) (fieldAt (·.h) raw) (fieldAt fld raw) j
+        (readingByCandle (out.getD j default) nm) (readingByCandle (out.getD j default) (nm ++ "_data"))
+        (readingByCandle (out.getD j default) (nm ++ "_k")) (readingByCandle (out.getD j default) (nm ++ "_d")) := by
+  rw [stoch_series_batch p sk sl hp hsk hsl nm input fld n hn hin hattr raw hraw] at hout
+  cases hout
+  exact ⟨stochDeco_length _ _ _ _ _ _ _, fun j hj => stochDeco_ok p sk sl hp hsk hsl nm fld n hn raw hraw j hj⟩
+
+/-- **… for every append schedule**: whenever a live history (construction over `init`,
+`calculate()`, then any appends) returns, its candles are those of `stoch_series` over the whole
+stream -/
+theorem stoch_series_live (p sk sl : Nat) (hp : 2 ≤ p) (hsk : 1 ≤ sk) (hsl : 1 ≤ sl) (nm input : String)
+    (fld : Candle K → Num K) (n : Nat) (hn : StochNames nm) (hin : NoDot input ∧ input ∈ Candle.attrNames)
+    (hattr : ∀ c : Candle K, c.attr input = some (.num (fld c)))
+    (init : List (Candle K)) (chunks : List (List (Candle K)))
+    (hraw : ∀ c ∈ init ++ chunks.flatten, Plain c) (snap : List (Candle K))
+    (hsnap : candlesOf (runIndicator (mkTop (.stoch (p : Int) (sl : Int) (sk : Int) input : Kind K) nm n) {}
+      init chunks) = .ok snap) :
+    snap = stochDeco nm n p sk sl fld (init ++ chunks.flatten) := by
+  have hrun := stoch_series p sk sl hp hsk hsl nm input fld n hn hin hattr _ hraw
+  have h := (stochTree (F := K) nm n (p : Int) (sl : Int) (sk : Int) input (by omega) (by omega) (by omega)
+    hn hin).live_refines (MgrSpec.base K) init chunks hraw snap hsnap
+  have h' : Gen.rowMajor (stochTree (F := K) nm n (p : Int) (sl : Int) (sk : Int) input (by omega) (by omega)
+    (by omega) hn hin).S (init ++ chunks.flatten) = .ok snap := h
+  rw [hrun] at h'
+  exact (Except.ok.inj h').symm
+
+/-! ### the default rounding: the own `k` / `d` fields ARE the helper readings -/
+
+theorem smaStored_round (n q t0 : Nat) (g : Nat → K) (j : Nat) :
+    PyF.round n (smaStored n q t0 g j) = smaStored n q t0 g j := by
+  cases j with
+  | zero => exact LawfulPyF.round_idem n _
+  | succ i =>
+    simp only [smaStored]
+    split <;> exact LawfulPyF.round_idem n _
+
+/-- with the node's `rounding` equal to the helpers' (`defaultRound = 4`, the library default) the
+second rounding does nothing: the own `k` and `d` fields equal the readings of `name_k` / `name_d` -/
+theorem stRow_default_round (p sk sl : Nat) (lo hi x : Nat → K) (j : Nat) :
+    ((stRow p sk sl lo hi x j).2.roundBy defaultRound).nested "k" = rowK (stRow p sk sl lo hi x j) ∧
+    ((stRow p sk sl lo hi x j).2.roundBy defaultRound).nested "d" = rowD (stRow p sk sl lo hi x j) := by
+  unfold stRow
+  by_cases h : j + 1 < p
+  · rw [if_pos h]; exact ⟨rfl, rfl⟩
+  · rw [if_neg h]
+    have hk : (stKSc p sk lo hi x j).roundBy defaultRound = stKSc p sk lo hi x j := by
+      unfold stKSc
+      split
+      · rfl
+      · show Scalar.num (.flt (PyF.round defaultRound _)) = _
+        unfold stKStored; rw [smaStored_round]
+    have hd : (stDSc p sk sl lo hi x j).roundBy defaultRound = stDSc p sk sl lo hi x j := by
+      unfold stDSc
+      split
+      · rfl
+      · show Scalar.num (.flt (PyF.round defaultRound _)) = _
+        unfold stDStored; rw [smaStored_round]
+    constructor
+    · simp [sdict, sc, Val.roundBy, Val.nested, dlookup, rowK, hk]
+    · simp [sdict, sc, Val.roundBy, Val.nested, dlookup, rowD, hd]
+
+/-! ### non-vacuity: the five demo candles of HexProps/C04.lean over ℚ -/
+
+/-- the five raw candles `C04.demoRaw` -/
+def stochDemoRaw : List (Candle ℚ) :=
+  [Demo.mk 10 12 9 11 100, Demo.mk 11 13 10 12 200, Demo.mk 12 15 11 14 300, Demo.mk 14 16 13 15 0,
+   Demo.mk 15 15 15 15 0]
+
+theorem stochDemoRaw_plain : ∀ c ∈ stochDemoRaw, Plain c := by
+  intro c hc
+  simp only [stochDemoRaw, List.mem_cons, List.not_mem_nil, or_false] at hc
+  rcases hc with rfl | rfl | rfl | rfl | rfl <;> exact ⟨rfl, rfl⟩
+
+/-- the name hypotheses hold for the default name of `STOCH(period=2)` -/
+theorem stochNames_demo : StochNames "STOCH_2" :=
+  ⟨by decide, by decide, by decide, by decide, by decide, by decide, by decide, by decide, by decide, by decide⟩
+
+theorem round_grid_rat (n : Nat) (k : Int) (q : ℚ) (h : q = (k : ℚ) / 10 ^ n) : PyF.round n q = q := by
+  rw [h]; exact LawfulPyF.round_grid n k
+
+/-- `STOCH(period=2, slow_period=2, smoothing_k=2)` over the demo candles: the row-major run … -/
+example : Gen.rowMajor (stochTree (F := ℚ) "STOCH_2" 4 ((2 : Nat) : Int) ((2 : Nat) : Int) ((2 : Nat) : Int) "close"
+      (by decide) (by decide) (by decide) stochNames_demo ⟨noDot_close, by decide⟩).S stochDemoRaw
+    = .ok (stochDeco "STOCH_2" 4 2 2 2 (·.c) stochDemoRaw) :=
+  stoch_series 2 2 2 (by norm_num) (by norm_num) (by norm_num) "STOCH_2" "close" (·.c) 4 stochNames_demo
+    ⟨noDot_close, by decide⟩ (fun _ => rfl) stochDemoRaw stochDemoRaw_plain
+
+/-- … and the batch run -/
+example : candlesOf (runIndicator (mkTop (.stoch ((2 : Nat) : Int) ((2 : Nat) : Int) ((2 : Nat) : Int) "close" : Kind ℚ)
+      "STOCH_2" 4) {} stochDemoRaw [])
+    = .ok (stochDeco "STOCH_2" 4 2 2 2 (·.c) stochDemoRaw) :=
+  stoch_series_batch 2 2 2 (by norm_num) (by norm_num) (by norm_num) "STOCH_2" "close" (·.c) 4 stochNames_demo
+    ⟨noDot_close, by decide⟩ (fun _ => rfl) stochDemoRaw stochDemoRaw_plain
+
+/-- the raw values on the demo candles (closes 11, 12, 14, 15, 15): `–, 75, 80, 80, 66.6…` -/
+abbrev demoS : Nat → ℚ :=
+  stExact 2 (fieldAt (·.l) stochDemoRaw) (fieldAt (·.h) stochDemoRaw) (fieldAt (·.c) stochDemoRaw)
+
+theorem demoS1 : demoS 1 = 75 := by
+  norm_num [demoS, stExact, stochOf, rmin, rmax, fieldAt, stochDemoRaw, Demo.mk]
+theorem demoS2 : demoS 2 = 80 := by
+  norm_num [demoS, stExact, stochOf, rmin, rmax, fieldAt, stochDemoRaw, Demo.mk]
+theorem demoS3 : demoS 3 = 80 := by
+  norm_num [demoS, stExact, stochOf, rmin, rmax, fieldAt, stochDemoRaw, Demo.mk]
+theorem demoS4 : demoS 4 = 200 / 3 := by
+  norm_num [demoS, stExact, stochOf, rmin, rmax, fieldAt, stochDemoRaw, Demo.mk]
+
+example : (List.range 5).map (stochSeries 2 (fieldAt (·.l) stochDemoRaw) (fieldAt (·.h) stochDemoRaw)
+    (fieldAt (·.c) stochDemoRaw)) = [none, some 75, some 80, some 80, some (200 / 3)] := by
+  simp [List.range, List.range.loop, stochSeries, demoS1, demoS2, demoS3, demoS4]
+
+example : stochTK 2 2 = 2 ∧ stochTD 2 2 2 = 3 := ⟨rfl, rfl⟩
+
+/-- the stored `%K` at index 2 (first reading) and 3 (running form) -/
+theorem demoK2 : stKStored 2 2 (fieldAt (·.l) stochDemoRaw) (fieldAt (·.h) stochDemoRaw) (fieldAt (·.c) stochDemoRaw) 2
+    = 155 / 2 := by
+  unfold stKStored
+  rw [smaStored_seed _ _ _ _ _ (by decide)]
+  have : winMean demoS 2 (stochTK 2 2) = 155 / 2 := by
+    show winMean demoS 2 2 = _
+    simp only [winMean, rsum, List.range_succ, List.range_zero, List.map_append, List.map_cons, List.map_nil,
+      List.nil_append, List.sum_append, List.sum_cons, List.sum_nil]
+    norm_num [demoS1, demoS2]
+  rw [this]
+  exact round_grid_rat _ 775000 _ (by norm_num [defaultRound])
+
+theorem demoK3 : stKStored 2 2 (fieldAt (·.l) stochDemoRaw) (fieldAt (·.h) stochDemoRaw) (fieldAt (·.c) stochDemoRaw) 3
+    = 80 := by
+  have h2 := demoK2
+  unfold stKStored at h2 ⊢
+  rw [smaStored_step _ _ _ _ _ (by decide)]
+  show PyF.round defaultRound (smaStored defaultRound 2 (stochTK 2 2) demoS 2 - (demoS 1 - demoS 3) / ((2 : Nat) : ℚ)) = 80
+  rw [h2, demoS1, demoS3]
+  have e : (155 / 2 - (75 - 80) / ((2 : Nat) : ℚ) : ℚ) = 80 := by norm_num
+  rw [e]
+  exact round_grid_rat _ 800000 _ (by norm_num [defaultRound])
+
+theorem demoD3 : stDStored 2 2 2 (fieldAt (·.l) stochDemoRaw) (fieldAt (·.h) stochDemoRaw) (fieldAt (·.c) stochDemoRaw) 3
+    = 315 / 4 := by
+  unfold stDStored
+  rw [smaStored_seed _ _ _ _ _ (by decide)]
+  have : winMean (stKStored 2 2 (fieldAt (·.l) stochDemoRaw) (fieldAt (·.h) stochDemoRaw) (fieldAt (·.c) stochDemoRaw))
+      2 (stochTD 2 2 2) = 315 / 4 := by
+    show winMean _ 2 3 = _
+    simp only [winMean, rsum, List.range_succ, List.range_zero, List.map_append, List.map_cons, List.map_nil,
+      List.nil_append, List.sum_append, List.sum_cons, List.sum_nil]
+    norm_num [demoK2, demoK3]
+  rw [this]
+  exact round_grid_rat _ 787500 _ (by norm_num [defaultRound])
+
+/-- the batch run on the demo candles, read off the candles: on candle 0 the own reading is the
+dict of three `None`s and no helper entry exists; on candle 3 the data entry is
+`{stoch: 80.0, k: 80.0}`, `STOCH_2_k = 80.0`, `STOCH_2_d = 78.75` and the own reading is
+`{stoch: 80.0, k: 80.0, d: 78.75}` -/
+example : ∃ out : List (Candle ℚ),
+    candlesOf (runIndicator (mkTop (.stoch ((2 : Nat) : Int) ((2 : Nat) : Int) ((2 : Nat) : Int) "close" : Kind ℚ)
+      "STOCH_2" 4) {} stochDemoRaw []) = .ok out ∧
+    readingByCandle (out.getD 0 default) "STOCH_2" = .dict [("stoch", .none), ("k", .none), ("d", .none)] ∧
+    readingByCandle (out.getD 0 default) ("STOCH_2" ++ "_data") = .none ∧
+    readingByCandle (out.getD 3 default) ("STOCH_2" ++ "_data")
+      = .dict [("stoch", .num (.flt 80)), ("k", .num (.flt 80))] ∧
+    readingByCandle (out.getD 3 default) ("STOCH_2" ++ "_k") = .flt 80 ∧
+    readingByCandle (out.getD 3 default) ("STOCH_2" ++ "_d") = .flt (315 / 4) ∧
+    readingByCandle (out.getD 3 default) "STOCH_2"
+      = .dict [("stoch", .num (.flt 80)), ("k", .num (.flt 80)), ("d", .num (.flt (315 / 4)))] := by
+  refine ⟨_, stoch_series_batch 2 2 2 (by norm_num) (by norm_num) (by norm_num) "STOCH_2" "close" (·.c) 4
+    stochNames_demo ⟨noDot_close, by decide⟩ (fun _ => rfl) stochDemoRaw stochDemoRaw_plain, ?_⟩
+  have hp : ∀ j, j < stochDemoRaw.length → Plain (stochDemoRaw.getD j default) :=
+    fun j hj => getD_plain _ stochDemoRaw_plain j hj
+  have r0 : stRow 2 2 2 (fieldAt (·.l) stochDemoRaw) (fieldAt (·.h) stochDemoRaw) (fieldAt (·.c) stochDemoRaw) 0
+      = (none, stochNone) := by unfold stRow; rw [if_pos (by decide)]
+  have r3 : stRow 2 2 2 (fieldAt (·.l) stochDemoRaw) (fieldAt (·.h) stochDemoRaw) (fieldAt (·.c) stochDemoRaw) 3
+      = (some (sdict [("stoch", sc (.flt 80)), ("k", .num (.flt 80))], .flt 80, .flt (315 / 4)),
+         sdict [("stoch", sc (.flt 80)), ("k", .num (.flt 80)), ("d", .num (.flt (315 / 4)))]) := by
+    unfold stRow stKSc stDSc
+    rw [if_neg (by decide), if_neg (by decide), if_neg (by decide), demoK3, demoD3]
+    have := demoS3
+    unfold demoS at this
+    rw [this]
+  have e80 : PyF.round 4 (80 : ℚ) = 80 := round_grid_rat _ 800000 _ (by norm_num)
+  have e78 : PyF.round 4 (315 / 4 : ℚ) = 315 / 4 := round_grid_rat _ 787500 _ (by norm_num)
+  rw [stochDeco_getD _ _ _ _ _ _ _ 0 (by decide), stochDeco_getD _ _ _ _ _ _ _ 3 (by decide),
+    stochApp_own _ _ stochNames_demo, stochApp_own _ _ stochNames_demo,
+    stochApp_data _ _ stochNames_demo _ _ (hp 0 (by decide)), stochApp_data _ _ stochNames_demo _ _ (hp 3 (by decide)),
+    stochApp_k _ _ stochNames_demo _ _ (hp 3 (by decide)), stochApp_d _ _ stochNames_demo _ _ (hp 3 (by decide)),
+    r0, r3]
+  refine ⟨rfl, rfl, rfl, rfl, rfl, ?_⟩
+  simp [sdict, sc, Val.roundBy, Scalar.roundBy, Num.roundBy, e80, e78]
+
 end Numeric
 end Hex
+
+#print axioms Hex.Numeric.stoch_series
+#print axioms Hex.Numeric.stochDeco_ok
+#print axioms Hex.Numeric.stoch_ranges
+#print axioms Hex.Numeric.stoch_series_engine
+#print axioms Hex.Numeric.stoch_series_batch
+#print axioms Hex.Numeric.stoch_batch_readings
+#print axioms Hex.Numeric.stoch_series_live
+#print axioms Hex.Numeric.stKStored_err
+#print axioms Hex.Numeric.stDStored_err
